@@ -82,6 +82,8 @@ pub enum OpK {
     Yield,
     Sleep,
     SpawnActor,
+    SpawnRegister,
+    Burst,
     Fork,
     AwaitLog,
     // registry
@@ -126,6 +128,8 @@ pub enum Res {
     /// the op's future panicked
     Panicked(String),
     NoneVal,
+    /// number of successful submissions of a burst
+    Count(u64),
 }
 
 #[derive(Clone, Debug, PartialEq, Eq, Hash)]
